@@ -40,7 +40,10 @@ SpecialBlocks ==
     { [fam |-> 2, body |-> Mapped(1) \o Mapped(2) \o << 0, 80, 1, 187 >>],
       [fam |-> 2, body |-> Mapped(1) \o Distinct(16, 7) \o << 0, 80, 1, 187 >>],
       [fam |-> 2, body |-> Distinct(16, 9) \o Distinct(16, 9) \o << 1, 2, 1, 2 >>],
-      [fam |-> 1, body |-> << 10, 0, 0, 1, 10, 0, 0, 1, 0, 80, 0, 80 >>] }
+      [fam |-> 1, body |-> << 10, 0, 0, 1, 10, 0, 0, 1, 0, 80, 0, 80 >>],
+      [fam |-> 1, body |-> [i \in 1..12 |-> 0]],
+      [fam |-> 2, body |-> [i \in 1..36 |-> 0]],
+      [fam |-> 2, body |-> << 254, 128, 0, 4 >> \o Distinct(12, 3) \o << 255, 2 >> \o Distinct(14, 5) \o << 0, 1, 0, 2 >>] }
 
 SpecialHeader(cmd, tr, blk, tail) ==
     V2!Signature \o << 32 + cmd, blk.fam * 16 + tr >> \o U16Bytes(Len(blk.body) + Len(tail)) \o blk.body \o tail
